@@ -17,6 +17,9 @@ var clientEntryPoints = []string{
 
 func init() {
 	register("C09", func(c *core.Ctx, tier string) {
+		frameTransportEffects(c, "C09.12")
+		errPolarity(c, "C09.3d", "engine", "transports", "types", "utils", "webtransport")
+		pollingEffects(c, "C09.11")
 		constructorChain(c, "C09.10")
 		c09Panics(c)
 		c09UncheckedAssertions(c)
@@ -768,8 +771,8 @@ func c09NilContradiction(c *core.Ctx) {
 				return "", false, false
 			}
 			p := selPath(x)
-			if strings.ContainsAny(p, "?(*") {
-				return "", false, false
+			if strings.ContainsAny(p, "?*") || strings.Contains(p, "(…)") {
+				return "", false, false // zero-argument accessor calls (x.Opt()) are kept: accessor agreement makes them stable reads
 			}
 			switch t := info.TypeOf(x); t.Underlying().(type) {
 			case *types.Pointer, *types.Interface, *types.Signature:
@@ -797,6 +800,11 @@ func c09NilContradiction(c *core.Ctx) {
 					case *types.Pointer:
 						if sel.Kind() == types.FieldVal {
 							out = append(out, s)
+						} else if sel.Kind() == types.MethodVal {
+							// a method of a repository type called through a nil pointer dereferences it in its body (none of them is nil-safe)
+							if fn, ok := sel.Obj().(*types.Func); ok && fn.Pkg() != nil && strings.Contains(fn.Pkg().Path(), "zishang520/engine.io/") {
+								out = append(out, s)
+							}
 						}
 					case *types.Interface:
 						if sel.Kind() == types.MethodVal {
